@@ -19,11 +19,24 @@ def _dummy_u():
     return {"k": "", "pl": 0, "t": [], "d": [], "sc": True}
 
 
+BIG = 400000000      # TLC integers are 32-bit: lattice values beyond this are not judged (never an overflow, never a pass by accident)
+
+
 def _norm_u(u):
     if u is None:
         return _dummy_u()
     sc = bool(u.get("sc")) or u.get("pl") is None
-    return {"k": u["k"], "pl": u["pl"] if u.get("pl") is not None else 0, "t": u["t"], "d": u["d"], "sc": sc}
+    # exponents or prefixes so large that sums of lattice values could leave the 32-bit range: excluded from value clauses
+    if any(abs(e) > 12 for _, e in u["t"]) or abs(u.get("pl") or 0) > BIG or any(abs(x) > 1000 for x in u["d"]):
+        sc = True
+    if any(abs(e) > 1000 for _, e in u["t"]) or any(abs(x) > 1000 for x in u["d"]):
+        _HUGE[0] = True             # the whole event is left out (normalise() checks the flag)
+    d = [max(-1000, min(1000, int(x))) for x in u["d"]]
+    t = [[n, max(-1000, min(1000, int(e)))] for n, e in u["t"]]
+    return {"k": u["k"], "pl": u["pl"] if (u.get("pl") is not None and abs(u["pl"]) <= BIG) else 0, "t": t, "d": d, "sc": sc}
+
+
+_HUGE = [False]
 
 
 def _norm_q(q):
@@ -31,6 +44,8 @@ def _norm_q(q):
         return {"u": _dummy_u(), "mk": "none", "lm": 0, "hm": False, "sg": 0}
     sg = q.get("sg")
     lm = q.get("lm")
+    if lm is not None and abs(lm) > BIG:
+        lm, sg = None, None          # a magnitude beyond 1e173 or below 1e-173: not judged
     hm = sg is not None and (sg == 0 or lm is not None)
     return {"u": _norm_u(q["u"]), "mk": q["mk"], "lm": lm if lm is not None else 0, "hm": hm, "sg": sg if sg is not None else 0}
 
@@ -39,16 +54,21 @@ def normalise(raw):
     """recorded events -> the homogeneous records MC_LedgerTrace reads (no nulls; validity flags instead)"""
     out = []
     for n, e in enumerate(raw):
+        if _HUGE[0] and out:
+            out.pop()               # the previous event involved exponents beyond +-1000: not judged
+        _HUGE[0] = False
         k = e["e"]
         if k == "decl":
-            out.append({"e": "decl", "t": e["t"], "lat": e["lat"] if e["lat"] is not None else 0, "ok": e["lat"] is not None, "text": e.get("text", ""), "id": n})
+            okd = e["lat"] is not None and abs(e["lat"]) <= BIG and all(abs(x) <= 12 for _, x in e["t"])
+            out.append({"e": "decl", "t": [[n, max(-1000, min(1000, int(x)))] for n, x in e["t"]], "lat": e["lat"] if okd else 0, "ok": okd, "text": e.get("text", ""), "id": n})
         elif k == "scale":
             out.append({"e": "scale", "b": e["b"], "id": n})
         elif k == "start":
             out.append({"e": "start", "id": n})
         elif k == "conv":
-            out.append({"e": "conv", "a": _norm_u(e["a"]), "b": _norm_u(e["b"]), "out": e["out"], "obs": e["obs"] if e["obs"] is not None else 0,
-                        "ho": e["obs"] is not None, "zero": bool(e["zero"]), "sign": bool(e["sign"]), "same": bool(e["same"]), "id": n})
+            big = e["obs"] is not None and abs(e["obs"]) > 2 * BIG
+            out.append({"e": "conv", "a": _norm_u(e["a"]), "b": _norm_u(e["b"]), "out": e["out"], "obs": e["obs"] if (e["obs"] is not None and not big) else 0,
+                        "ho": e["obs"] is not None and not big, "zero": bool(e["zero"]), "sign": bool(e["sign"]), "same": bool(e["same"]), "id": n})
         elif k == "arith":
             r = e.get("r")
             if r is None:
@@ -61,10 +81,15 @@ def normalise(raw):
                 rt, rq = "num", {"u": _dummy_u(), "mk": r["num"], "lm": 0, "hm": False, "sg": 0}
             else:
                 rt, rq = "foreign", _norm_q(None)
-            out.append({"e": "arith", "op": e["op"], "l": _norm_q(e["l"]), "rt": rt, "r": rq, "n": e["n"] if e.get("n") is not None else 0,
+            if e["op"] in ("pow", "root") and (e.get("n") is None or abs(e["n"]) > 12):
+                rt = "foreign"      # exponent out of the judged range
+            out.append({"e": "arith", "op": e["op"], "l": _norm_q(e["l"]), "rt": rt, "r": rq, "n": e["n"] if (e.get("n") is not None and abs(e["n"]) <= 12) else 0,
                         "out": e["out"], "hr": e.get("res") is not None, "res": _norm_q(e.get("res")), "id": n})
         elif k == "cmp":
             out.append({"e": "cmp", "op": e["op"], "l": _norm_q(e["l"]), "r": _norm_q(e["r"]), "out": e["out"] or "none", "id": n})
+    if _HUGE[0] and out:
+        out.pop()
+    _HUGE[0] = False
     return out
 
 
